@@ -8,6 +8,9 @@ from vlib import connharness as ch
 W_MC = 2
 
 
+from amaranth import Elaboratable as _Elab  # noqa: E402
+
+
 def C(kind, n=1, n2=0, mode="-", d=0, w=W_MC):
     return {"kind": kind, "n": n, "n2": n2, "mode": mode, "d": d, "w": w}
 
@@ -23,9 +26,12 @@ class Bank:
         self.pub = {}
         self.inputs = {}
 
-    def add(self, has_in=True, has_out=True, out_layout=None):
+    def add(self, has_in=True, has_out=True, out_layout=None, validate=False):
         from transactron.lib.adapters import Adapter
-        a = Adapter(i=self.lay if has_in else [], o=(out_layout or self.lay) if has_out else [])
+        if validate:
+            a = ValTarget(self.lay)      # a target that refuses the all-zero argument (validate_arguments)
+        else:
+            a = Adapter(i=self.lay if has_in else [], o=(out_layout or self.lay) if has_out else [])
         self.adapters.append(a)
         return a
 
@@ -50,6 +56,32 @@ class Bank:
             self.pub["arg" + suffix] = [a.data_out.as_value() for a in adapters]
 
 
+class ValTarget(_Elab):
+    """Harness target with the interface of an Adapter (iface, en, data_in = returned value, data_out = argument,
+    done) whose method is defined with validate_arguments: it accepts only non-zero data."""
+
+    def __init__(self, lay):
+        from amaranth import Signal
+        from transactron import Method
+        self.iface = Method(i=lay, o=lay)
+        self.en = Signal()
+        self.data_in = Signal(self.iface.layout_out)
+        self.data_out = Signal(self.iface.layout_in)
+        self.done = Signal()
+
+    def elaborate(self, platform):
+        from transactron import TModule, def_method
+        m = TModule()
+
+        @def_method(m, self.iface, ready=self.en, validate_arguments=lambda data: data != 0)
+        def _(arg):
+            m.d.top_comb += self.data_out.eq(arg)
+            m.d.comb += self.done.eq(1)
+            return self.data_in
+
+        return m
+
+
 def build(cfg):
     from amaranth import Signal
     from transactron.lib import transformers as T
@@ -61,7 +93,7 @@ def build(cfg):
     b = Bank(w)
     methods = {}
     if kind == "connect":
-        t1, t2 = b.add(), b.add()
+        t1, t2 = b.add(validate=(mode == "val")), b.add(validate=(mode == "val"))
         dut = ConnectTrans.create(t1.iface, t2.iface)
         b.inputs.update({"r1": t1.en, "r2": t2.en, "v1": t1.data_in.as_value(), "v2": t2.data_in.as_value()})
         b.pub.update({"ran1": t1.done, "arg1": t1.data_out.as_value(), "ran2": t2.done, "arg2": t2.data_out.as_value()})
@@ -327,7 +359,7 @@ def collector_histories(cfg, length):
 
 def trace_cfgs(thorough):
     w = 2
-    cfgs = [C("connect", 1, 1, w=w),
+    cfgs = [C("connect", 1, 1, w=w), C("connect", 1, 1, mode="val", w=w), C("connect", 1, 1, mode="val", w=3),
             C("crossbar", 1, 2, w=w), C("crossbar", 2, 2, w=w), C("crossbar", 3, 2, w=w), C("crossbar", 2, 3, w=w),
             C("crossbar", 3, 3, w=w),
             C("map", mode="fun", w=w), C("map", mode="fun", w=3), C("map", mode="meth", w=w),
